@@ -6227,3 +6227,113 @@ mod tests {
         assert_eq!(700, os2.us_weight_class());
     }
 }
+
+/// Verification hooks (guarded by `--cfg fontc_verif`): scheduler events for the
+/// /verif correspondence harness. The log itself lives in fontdrasil.
+#[cfg(fontc_verif)]
+pub mod verif_hooks {
+    use fontbe::orchestration::AnyWorkId;
+    use fontdrasil::orchestration::{Access, AccessType, Identifier, verif_hooks as h};
+
+    use crate::work::{AnyAccess, AnyWork};
+
+    pub use fontdrasil::orchestration::verif_hooks::{enable, take};
+
+    fn id_str(id: &AnyWorkId) -> String {
+        h::esc(&format!("{id:?}"))
+    }
+
+    /// `"None" | "Unknown" | "All" | [["S", id, disc] | ["V", disc], ...]`
+    pub fn access_json(access: &AnyAccess) -> String {
+        fn atom(a: &AccessType<AnyWorkId>) -> String {
+            match a {
+                AccessType::SpecificInstanceOfVariant(id) => {
+                    format!("[\"S\",\"{}\",\"{}\"]", id_str(id), id.discriminant())
+                }
+                AccessType::Variant(id) => format!("[\"V\",\"{}\"]", id.discriminant()),
+            }
+        }
+        match access.to_be() {
+            Access::None => "\"None\"".to_string(),
+            Access::Unknown => "\"Unknown\"".to_string(),
+            Access::All => "\"All\"".to_string(),
+            Access::SpecificInstanceOfVariant(id) => {
+                format!("[{}]", atom(&AccessType::SpecificInstanceOfVariant(id)))
+            }
+            Access::Variant(id) => format!("[{}]", atom(&AccessType::Variant(id))),
+            Access::Set(ids) => {
+                let mut v: Vec<String> = ids.iter().map(atom).collect();
+                v.sort();
+                format!("[{}]", v.join(","))
+            }
+        }
+    }
+
+    pub(crate) fn insert(id: &AnyWorkId, work: &AnyWork, read: &AnyAccess) {
+        if !h::enabled() {
+            return;
+        }
+        let kind = match work {
+            AnyWork::AlsoComplete(..) => "also",
+            AnyWork::Nop(..) => "nop",
+            _ => "job",
+        };
+        let also: Vec<String> = work
+            .also_completes()
+            .iter()
+            .map(|i| format!("\"{}\"", id_str(i)))
+            .collect();
+        h::log(format!(
+            "{{\"ev\":\"insert\",\"id\":\"{}\",\"disc\":\"{}\",\"kind\":\"{kind}\",\"read\":{},\"also\":[{}],\"by\":\"{}\"}}",
+            id_str(id),
+            id.discriminant(),
+            access_json(read),
+            also.join(","),
+            h::esc(&h::current().unwrap_or_default())
+        ));
+    }
+
+    pub(crate) fn event(ev: &str, id: &AnyWorkId, read: Option<&AnyAccess>) {
+        if !h::enabled() {
+            return;
+        }
+        let read = read
+            .map(|r| format!(",\"read\":{}", access_json(r)))
+            .unwrap_or_default();
+        h::log(format!(
+            "{{\"ev\":\"{ev}\",\"id\":\"{}\"{read},\"by\":\"{}\"}}",
+            id_str(id),
+            h::esc(&h::current().unwrap_or_default())
+        ));
+    }
+
+    /// Marks the scheduler thread as running the completion handler of `id`.
+    pub(crate) struct DeliverScope;
+    impl Drop for DeliverScope {
+        fn drop(&mut self) {
+            h::set_current(None);
+        }
+    }
+    pub(crate) fn deliver_scope(id: &AnyWorkId) -> DeliverScope {
+        if h::enabled() {
+            event("deliver", id, None);
+            h::set_current(Some(format!("deliver:{id:?}")));
+        }
+        DeliverScope
+    }
+
+    pub(crate) fn job_scope_enter(id: &AnyWorkId) {
+        if h::enabled() {
+            h::set_current(Some(format!("{id:?}")));
+        }
+    }
+
+    /// Logged before the counters are decremented, so that in the log a worker's
+    /// finish always precedes any launch that observed its counter update.
+    pub(crate) fn job_scope_exit(id: &AnyWorkId, ok: bool) {
+        if h::enabled() {
+            h::set_current(None);
+            event(if ok { "wfinish" } else { "wfail" }, id, None);
+        }
+    }
+}
